@@ -140,8 +140,11 @@ Definition dec_mpnlri (m : mode) (afi safi : N) (body : list N) : option mpnlri 
   | None => Some (MpOther afi safi body)
   end.
 
-Definition dec_attr_val (m : mode) (fl ty : N) (v : list N) : option attr :=
-  if ty =? 14 then
+(* [s14] / [s15]: an MP_REACH_NLRI / MP_UNREACH_NLRI has been seen earlier in this UPDATE and the
+   mode is Code: the implementation only ever looks at the first one (routecore find()), later
+   ones stay uninterpreted. In Rfc mode the flags are never set: every MP attribute is decoded. *)
+Definition dec_attr_val (m : mode) (s14 s15 : bool) (fl ty : N) (v : list N) : option attr :=
+  if (ty =? 14) && negb s14 then
     match v with
     | ah :: al :: sf :: nhl :: r =>
         match take_n nhl r with
@@ -154,7 +157,7 @@ Definition dec_attr_val (m : mode) (fl ty : N) (v : list N) : option attr :=
         end
     | _ => None
     end
-  else if ty =? 15 then
+  else if (ty =? 15) && negb s15 then
     match v with
     | ah :: al :: sf :: body =>
         match dec_mpnlri m (u16 ah al) sf body with
@@ -163,9 +166,13 @@ Definition dec_attr_val (m : mode) (fl ty : N) (v : list N) : option attr :=
         end
     | _ => None
     end
+  else if ((ty =? 14) || (ty =? 15)) && Nat.ltb (length v) 3 then None
+       (* a later MP attribute stays uninterpreted, but routecore's from_octets still reads the AFI/SAFI of every one *)
   else Some (AGen fl ty v).
 
-Fixpoint dec_attrs (m : mode) (fuel : nat) (b : list N) : option (list attr) :=
+Definition seen (m : mode) (s : bool) (ty k : N) : bool := s || (strict m && (ty =? k)).
+
+Fixpoint dec_attrs (m : mode) (s14 s15 : bool) (fuel : nat) (b : list N) : option (list attr) :=
   match b with
   | [] => Some []
   | fl :: ty :: rest =>
@@ -179,7 +186,8 @@ Fixpoint dec_attrs (m : mode) (fuel : nat) (b : list N) : option (list attr) :=
           | Some (n, r) =>
               match take_n n r with
               | Some (v, rest') =>
-                  match dec_attr_val m fl ty v, dec_attrs m fuel' rest' with
+                  match dec_attr_val m s14 s15 fl ty v,
+                        dec_attrs m (seen m s14 ty 14) (seen m s15 ty 15) fuel' rest' with
                   | Some a, Some l => Some (a :: l)
                   | _, _ => None
                   end
@@ -205,8 +213,9 @@ Definition encode (u : update) : list N :=
   let body := enc_body u in
   marker ++ enc_u16 (19 + lenN body) ++ 2 :: body.
 
-Definition is_reach (a : attr) : bool := match a with AReach _ _ _ _ => true | _ => false end.
-Definition is_unreach (a : attr) : bool := match a with AUnreach _ _ => true | _ => false end.
+(* by type code: an uninterpreted later duplicate counts as well *)
+Definition is_reach (a : attr) : bool := a_type a =? 14.
+Definition is_unreach (a : attr) : bool := a_type a =? 15.
 Definition count_if {A} (f : A -> bool) (l : list A) : nat := length (filter f l).
 (* RFC 7606 3.g: MP_REACH_NLRI / MP_UNREACH_NLRI appear at most once *)
 Definition mp_unique (l : list attr) : bool :=
@@ -222,7 +231,7 @@ Definition dec_body (m : mode) (body : list N) : option update :=
       | Some (w, ah :: al :: r3) =>
           match take_n (u16 ah al) r3 with
           | Some (a, n) =>
-              match dec_pfxs m 32 (length w) w, dec_attrs m (length a) a, dec_pfxs m 32 (length n) n with
+              match dec_pfxs m 32 (length w) w, dec_attrs m false false (length a) a, dec_pfxs m 32 (length n) n with
               | Some wd, Some attrs, Some nlri =>
                   if strict m || mp_unique attrs then Some (MkUpd wd attrs nlri) else None
               | _, _, _ => None
@@ -330,3 +339,22 @@ Definition carries_routes (u : update) : bool :=
   negb (match u_wd u with [] => true | _ => false end)
   || negb (match u_nlri u with [] => true | _ => false end)
   || existsb is_reach (u_attrs u).
+
+(* ---------- named values used in the statements of Props_C04.v ---------- *)
+(* MP attributes of an unsupported AFI/SAFI contribute nothing *)
+Definition mp_other (a : attr) : bool :=
+  match a with AReach _ _ _ (MpPfx _ _) | AUnreach _ (MpPfx _ _) => false | _ => true end.
+
+
+Definition hex_pdu (body : list N) : list N := marker ++ enc_u16 (19 + lenN body) ++ 2 :: body.
+
+(* 10.128.0.0/8 written with a non-zero trailing bit: legal per RFC 4271 4.3 *)
+Definition pdu_trailing : list N := hex_pdu [0;0; 0;0; 9; 10; 129].
+(* two MP_UNREACH_NLRI attributes: malformed per RFC 7606 3.g; the code's mode uses the first *)
+Definition pdu_dup_mp : list N :=
+  hex_pdu ([0;0; 0;16] ++ [128; 15; 5; 0;2;1; 8; 32] ++ [128; 15; 5; 0;2;1; 8; 48]).
+(* the same with a third attribute whose NLRI does not parse (prefix length 200): never looked at in Code mode *)
+Definition pdu_dup_mp_bad : list N :=
+  hex_pdu ([0;0; 0;21] ++ [128; 15; 5; 0;2;1; 8; 32] ++ [128; 15; 3; 0;2;1] ++ [128; 15; 4; 0;2;1; 200]).
+(* unguarded, the shortcut drops routes: 10.0.0.0/8 next to an empty MP_UNREACH_NLRI for IPv6 unicast *)
+Definition upd_eorlike : update := MkUpd [] [AGen 64 1 [0]; AUnreach 128 (MpPfx F6U [])] [MkPfx 8 [10]].
